@@ -17,7 +17,7 @@ def run(ctx):
     ctx.tlc_mc("node", "MCNode.tla", "MC_Node.cfg", timeout=900)
     scheds = []
     seen = set()
-    for h in ctx.tlc_sim("node", "NodeSim.tla", "Sim_Node.cfg" if q else "Sim_Node_t.cfg", num=4 if q else 60, depth=160 if q else 400, timeout=900):
+    for h in ctx.tlc_sim("node", "NodeSim.tla", "Sim_Node_c03.cfg" if q else "Sim_Node_c03_t.cfg", num=4 if q else 60, depth=160 if q else 400, timeout=900):
         k = json.dumps(h)
         if k not in seen:
             seen.add(k)
